@@ -46,6 +46,15 @@ CHECKS = {
                      "AVP type x payload length 0..20 x invalid content in four embeddings, nesting to 16.",
                 ref="4 C04", note=BASE_NOTE + "; linear time is judged on a logical step count, not wall-clock; "
                 "diameter.message.dump() is observed but not judged."),
+    "C20": dict(cat="exploration", tech="runtime contract on the real Message.to_answer over every command class x "
+                "256 flag octets x boundary ids; node/application generated answers judged with the reference decoder",
+                text="The contract judges class (paired answer class from the naming convention), header mirroring, "
+                     "P kept, R/E/T cleared and request untouched (header tuple and byte snapshot) on every call; the "
+                     "grid class x flag octet is enumerated completely for decoded, plain-decoded and constructed "
+                     "requests. Answers from Node._generate_answer and Application.generate_answer are encoded by the "
+                     "real code and their bytes checked for Origin-Host/Realm, Session-Id and Proxy-Info.",
+                ref="4 C20", note=BASE_NOTE + "; Session-Id/Proxy-Info copying is judged for commands whose request "
+                "grammar has them (typed) and for all untyped commands."),
 }
 
 NOT_YET = "check not built yet in this round (planned in DESIGN.md section 4); no claim is made"
